@@ -19,6 +19,8 @@ pub enum Ty {
     I16,
     I32,
     I64,
+    U128,
+    I128,
 }
 
 impl Ty {
@@ -28,9 +30,10 @@ impl Ty {
             Ty::U16 | Ty::I16 => 16,
             Ty::U32 | Ty::I32 => 32,
             Ty::U64 | Ty::I64 => 64,
+            Ty::U128 | Ty::I128 => 128,
         }
     }
-    const ALL: [Ty; 7] = [Ty::U8, Ty::U16, Ty::U32, Ty::U64, Ty::I16, Ty::I32, Ty::I64];
+    const ALL: [Ty; 10] = [Ty::U8, Ty::U16, Ty::U32, Ty::U64, Ty::I16, Ty::I32, Ty::I64, Ty::U128, Ty::I128, Ty::U32];
 }
 
 #[derive(Clone, Copy, Debug, PartialEq, Eq)]
@@ -91,10 +94,10 @@ pub enum Want {
     Start { p: usize, in_error: bool, len: usize },
 }
 
-fn field(bits: &[bool], p: usize, n: u32) -> u64 {
-    let mut v = 0u64;
+fn field(bits: &[bool], p: usize, n: u32) -> u128 {
+    let mut v = 0u128;
     for i in 0..n as usize {
-        v = (v << 1) | bits[p + i] as u64;
+        v = (v << 1) | bits[p + i] as u128;
     }
     v
 }
@@ -113,11 +116,11 @@ const EOF: &str = "Err(eof)";
 const INTERNAL: &str = "Err(*)";
 
 impl Model {
-    fn mask(w: u32) -> u64 {
-        if w >= 64 {
-            u64::MAX
+    fn mask(w: u32) -> u128 {
+        if w >= 128 {
+            u128::MAX
         } else {
-            (1u64 << w) - 1
+            (1u128 << w) - 1
         }
     }
 
@@ -293,18 +296,20 @@ fn to_table(t: &[Node]) -> Vec<hk::Entry<u16>> {
 macro_rules! typed {
     ($r:expr, $meth:ident, $t:expr, $n:expr) => {
         match $t {
-            Ty::U8 => $r.$meth::<u8>($n).map(|v| v as u64),
-            Ty::U16 => $r.$meth::<u16>($n).map(|v| v as u64),
-            Ty::U32 => $r.$meth::<u32>($n).map(|v| v as u64),
-            Ty::U64 => $r.$meth::<u64>($n),
-            Ty::I16 => $r.$meth::<i16>($n).map(|v| v as u16 as u64),
-            Ty::I32 => $r.$meth::<i32>($n).map(|v| v as u32 as u64),
-            Ty::I64 => $r.$meth::<i64>($n).map(|v| v as u64),
+            Ty::U8 => $r.$meth::<u8>($n).map(|v| v as u128),
+            Ty::U16 => $r.$meth::<u16>($n).map(|v| v as u128),
+            Ty::U32 => $r.$meth::<u32>($n).map(|v| v as u128),
+            Ty::U64 => $r.$meth::<u64>($n).map(|v| v as u128),
+            Ty::I16 => $r.$meth::<i16>($n).map(|v| v as u16 as u128),
+            Ty::I32 => $r.$meth::<i32>($n).map(|v| v as u32 as u128),
+            Ty::I64 => $r.$meth::<i64>($n).map(|v| v as u64 as u128),
+            Ty::U128 => $r.$meth::<u128>($n),
+            Ty::I128 => $r.$meth::<i128>($n).map(|v| v as u128),
         }
     };
 }
 
-fn num(r: Result<u64, Error>) -> (String, bool) {
+fn num(r: Result<u128, Error>) -> (String, bool) {
     match r {
         Ok(v) => (format!("Ok({})", v), false),
         Err(e) => (err_text(&e), true),
@@ -322,7 +327,7 @@ fn exec<R: Read>(r: &mut H263Reader<R>, ops: &[Op], propagate: bool, out: &mut V
                 Ok(()) => ("Ok".into(), false),
                 Err(e) => (err_text(&e), true),
             },
-            Op::ReadU8 => num(r.read_u8().map(|v| v as u64)),
+            Op::ReadU8 => num(r.read_u8().map(|v| v as u128)),
             Op::Vlc(t) => {
                 let table = to_table(t);
                 match r.read_vlc(&table[..]) {
@@ -593,7 +598,7 @@ fn gen_flat(g: &mut Gen, in_propagating_block: bool, big: bool) -> Op {
     let n_any = |g: &mut Gen, ty: Ty| -> u32 {
         match g.weighted(&[6, 2, 1]) {
             0 => g.range(0, ty.width() as i64) as u32,
-            1 => *g.pick(&[1u32, 7, 8, 9, 16, 17, 31, 32, 33, 63, 64]).min(&(ty.width() + 2)),
+            1 => *g.pick(&[1u32, 7, 8, 9, 16, 17, 31, 32, 33, 63, 64, 65, 72, 73, 100, 127, 128]).min(&(ty.width() + 2)),
             _ => ty.width() + g.range(1, 2) as u32,
         }
     };
@@ -602,11 +607,13 @@ fn gen_flat(g: &mut Gen, in_propagating_block: bool, big: bool) -> Op {
         1 => Op::Peek(ty, n_any(g, ty)),
         2 => Op::ReadSigned(ty, n_any(g, ty).max(1)),
         3 => Op::PeekSigned(ty, n_any(g, ty).max(1)),
-        4 => Op::Skip(match g.weighted(&[5, 2, 1, if big { 6 } else { 0 }]) {
+        4 => Op::Skip(match g.weighted(&[50, 20, 10, if big { 60 } else { 0 }, 3]) {
             0 => g.range(0, 16) as u32,
             1 => g.range(0, 70) as u32,
             2 => g.range(100, 400) as u32,
-            _ => g.range(1_000, 200_000) as u32,
+            3 => g.range(1_000, 200_000) as u32,
+            // counts at the top of the 32-bit range and around its powers of two: beyond any source
+            _ => *g.pick(&[u32::MAX, u32::MAX - 1, u32::MAX - 6, u32::MAX - 7, u32::MAX - 8, 1 << 31, (1 << 31) - 1, (1 << 31) + 7, 1 << 30, (1 << 29) + 3, 0x7FFF_FFF9]),
         }),
         5 => Op::ReadU8,
         6 => Op::StartCode(false),
